@@ -821,7 +821,26 @@ def _parsers(repo, rep):
     rep.check(w == {"text", "structure"}, "R01.8", "chameleon.tal.SUBST_RE",
               "content/replace/on-error accept the keywords text and "
               "structure", construct="subst-keywords", detail=str(sorted(w)))
+    import re as _re
+    import re._parser as _rp
+
+    def ignorecase(rc):
+        pat = rc.pattern if isinstance(rc.pattern, str) else \
+            rc.pattern.decode("latin-1")
+        try:
+            return bool(_rp.parse(pat, rc.flags).state.flags & _re.I)
+        except Exception as exc:
+            raise AnalysisError("cannot parse regex: %s" % exc)
+    rep.check(not ignorecase(rc), "R01.8", "chameleon.tal.SUBST_RE",
+              "the keywords are matched case-sensitively (the consumers "
+              "compare with == 'text': 'Text x' must not select another "
+              "escape set)", construct="subst-keywords-case",
+              detail="flags %s" % rc.flags)
     w, rc = first_group_words("DEFINE_RE")
+    rep.check(not ignorecase(rc), "R01.8", "chameleon.tal.DEFINE_RE",
+              "global / local are matched case-sensitively (the consumers "
+              "compare with == 'local')", construct="define-keywords-case",
+              detail="flags %s" % rc.flags)
     rep.check(w == {"global", "local"}, "R01.8", "chameleon.tal.DEFINE_RE",
               "define/repeat accept the keywords global and local",
               construct="define-keywords", detail=str(sorted(w)))
